@@ -372,30 +372,39 @@ def planTasks (run : Run) (applyIds pruneIds : List Id) (layers : List (List Id)
   let tEnd : Task := ⟨if run.destroy then "inventory-delete-or-update-0" else "inventory-set-0", .invSet prev prevErr⟩
   t0 ++ ta.1 ++ tp.1 ++ [tEnd]
 
+/-- what validation found: objects failing field validation, the errors of `DependencyGraph`, the ids on/behind a cycle -/
+structure Validation where
+  fieldBad : List Id
+  depErrs : List DepEdges.DepErr
+  cyc : List Id
+deriving Repr
+
+/-- `Collector.InvalidIds` -/
+def Validation.invalid (v : Validation) : List Id :=
+  IdSet.union (IdSet.union (dedup v.fieldBad) (v.depErrs.map (·.obj))) v.cyc
+
+/-- `Collector.Errors` in order: ids named, class -/
+def Validation.errors (v : Validation) : List (List Id × String) :=
+  v.fieldBad.map (fun i => ([i], "field")) ++ v.depErrs.map (fun e => ([e.obj], depErrKind e)) ++
+  (if v.cyc.isEmpty then [] else [(v.cyc, "cycle")])
+
 /-- `TaskQueueBuilder.Build` (+ the field validation done before it); `prev` = GetClusterObjs at the end of Build -/
 def buildPlan (run : Run) (applyMs : List Manifest) (pruneObjs : List Live) (prev : List Id) (prevErr : Bool) : Plan :=
-  -- field validation (applier validates the apply set, destroyer the delete set — both arrive here as `fieldBad`)
+  -- field validation (applier validates the apply set, destroyer the delete set)
   let fieldBad : List Id :=
     if run.destroy then (pruneObjs.filter (fun o => fieldInvalid { id := o.id })).map (·.id)
     else (applyMs.filter fieldInvalid).map (·.id)
   let inv1 := dedup fieldBad
-  let errs1 : List (List Id × String) := fieldBad.map (fun i => ([i], "field"))
   let applyMs1 := applyMs.filter (fun m => m.id ∉ inv1)
   let pruneObjs1 := pruneObjs.filter (fun o => o.id ∉ inv1)
   let dobjs := applyMs1.map dobjOfManifest ++ pruneObjs1.map dobjOfLive
   let de := DepEdges.dependencyEdges dobjs
   let g := Graph.build (dobjs.map (·.id)) de.edges
-  let inv2 := IdSet.union inv1 (de.errors.map (·.obj))
-  let errs2 := errs1 ++ de.errors.map (fun e => ([e.obj], depErrKind e))
   let s := Graph.sort g
-  let cyc := Graph.cycleIds Ordering.less s.2
-  let inv3 := IdSet.union inv2 cyc
-  let errs3 := if cyc.isEmpty then errs2 else errs2 ++ [(cyc, "cycle")]
-  let applyMs2 := applyMs1.filter (fun m => m.id ∉ inv3)
-  let pruneObjs2 := pruneObjs1.filter (fun o => o.id ∉ inv3)
-  let applyIds := applyMs2.map (·.id)
-  let pruneIds := pruneObjs2.map (·.id)
-  { tasks := planTasks run applyIds pruneIds s.1 prev prevErr, invalid := inv3, valErrors := errs3,
+  let v : Validation := { fieldBad := fieldBad, depErrs := de.errors, cyc := Graph.cycleIds Ordering.less s.2 }
+  let applyIds := (applyMs.filter (fun m => m.id ∉ v.invalid)).map (·.id)
+  let pruneIds := (pruneObjs.filter (fun o => o.id ∉ v.invalid)).map (·.id)
+  { tasks := planTasks run applyIds pruneIds s.1 prev prevErr, invalid := v.invalid, valErrors := v.errors,
     applyIds := applyIds, pruneIds := pruneIds, graph := g, edges := de.edges }
 
 /-! ## tasks -/
@@ -822,8 +831,12 @@ def runWait (group : String) (s : St) (ids : List Id) (cond : Wait.Cond) : TaskR
       { ws with s := { ws.s with cancelled := true }, w := Wait.cancel ws.w, stopped := true }
     else ws
   if ws.w.cancelled then (ws.s, none)
+  else if !ws.s.run.opts.timeout then
+    -- no deadline configured and objects still pending: the real phase would wait forever (the harness reports a hang;
+    -- the generator configures a timeout whenever a phase can stay pending, so this branch is not exercised)
+    (ws.s, some "hang")
   else
-    -- deadline (the generator configures a timeout whenever a phase can stay pending)
+    -- the deadline fires: Timeout for exactly the pending objects
     let n0 := ws.w.events.length
     let w' := Wait.timeout { ws.w with mgr := ws.s.mgr }
     (flushWait group { ws.s with mgr := w'.mgr } w' n0, none)
